@@ -13,7 +13,7 @@ import os
 from dataclasses import dataclass, replace
 from typing import Any, Dict, List, Optional, Tuple
 
-from .domains import (LamV, BoolV, BoundV, ClsV, Const, DictE, ElemE, ExcV, ExtV, Frame, FuncV, IdxE, IterV,
+from .domains import (GenV, LamV, BoolV, BoundV, ClsV, Const, DictE, ElemE, ExcV, ExtV, Frame, FuncV, IdxE, IterV,
                       LenV, ListE, MethV, ModV, NoneV, NumV, ObjE, Ref, S, State, StrV, TupleV, Unknown, Val)
 from .exchier import ExcHier
 from .front import AnalysisError, ClassInfo, FuncInfo, Program, norm
@@ -60,6 +60,7 @@ class Interp(ModelMixin):
         self.sites_seen: Dict[str, set] = {}
         self.depth = 0
         self.lambdas = {}
+        self.genexps = {}
 
     # ------------------------------------------------------------ reporting
     def note(self, msg):
@@ -430,6 +431,13 @@ class Interp(ModelMixin):
 
     def st_Assign(self, stmt, st):
         res = []
+        if isinstance(stmt.value, ast.GeneratorExp) and len(stmt.targets) == 1 and isinstance(stmt.targets[0], ast.Name) \
+                and len(stmt.value.generators) == 1 and not stmt.value.generators[0].is_async:
+            # name = (<generator expression>): lazy -- it is evaluated where it is consumed (for loop, next(), or any
+            # other use, which materialises it)
+            self.genexps[id(stmt.value)] = stmt.value
+            st.frame.env[stmt.targets[0].id] = GenV(id(stmt.value))
+            return [(NEXT, st)]
         for v, s in self.ev(stmt.value, st):
             if isinstance(v, Raise):
                 res.append((('raise', v.exc), s))
@@ -705,9 +713,15 @@ class Interp(ModelMixin):
         raise AnalysisError(f'nested class definition {stmt.name} at line {stmt.lineno}')
 
     # ---------------------------------------------------------------- loops
+    def _ev_iterable(self, e, st):
+        """Evaluate the iterable of a for loop / next(): a name bound to a lazy generator is handed over as such."""
+        if isinstance(e, ast.Name) and isinstance(st.frame.env.get(e.id), GenV):
+            return [(st.frame.env[e.id], st)]
+        return self.ev(e, st)
+
     def st_For(self, stmt, st):
         res = []
-        for it, s in self.ev(stmt.iter, st):
+        for it, s in self._ev_iterable(stmt.iter, st):
             if isinstance(it, Raise):
                 res.append((('raise', it.exc), s))
                 continue
@@ -762,9 +776,56 @@ class Interp(ModelMixin):
             work = nxt
         return self.dedupe(res)
 
+    def _run_genv(self, gv, st: State, body, node):
+        """for x in <lazy generator>: the generator's own loop with the consumer's body run at every yield"""
+        gen = self.genexps[gv.key]
+        g = gen.generators[0]
+        names = [n.id for n in ast.walk(g.target) if isinstance(n, ast.Name)]
+        saved = {n: st.frame.env[n] for n in names if n in st.frame.env}
+        exits, escapes = [], []
+        for it, s in self.ev(g.iter, st):
+            if isinstance(it, Raise):
+                escapes.append((('raise', it.exc), s))
+                continue
+
+            def inner(elem, s2):
+                outs = []
+                for ctl, s3 in self.assign(g.target, elem, s2, gen):
+                    if ctl != NEXT:
+                        outs.append((ctl, s3))
+                        continue
+                    conds = [(True, s3)]
+                    for c in list(g.ifs):
+                        nxt = []
+                        for ok, s4 in conds:
+                            nxt.extend(self.cond(c, s4) if ok is True else [(ok, s4)])
+                        conds = nxt
+                    for ok, s4 in conds:
+                        if isinstance(ok, Raise):
+                            outs.append((('raise', ok.exc), s4))
+                        elif not ok:
+                            outs.append((NEXT, s4))
+                        else:
+                            for v, s5 in self.ev(gen.elt, s4):
+                                if isinstance(v, Raise):
+                                    outs.append((('raise', v.exc), s5))
+                                else:
+                                    outs.extend(body(v, s5))
+                return outs
+            ex, esc = self.run_loop(it, s, inner, node)
+            exits.extend(ex)
+            escapes.extend(esc)
+        for _, s in exits + escapes:
+            for n in names:
+                s.frame.env.pop(n, None)
+            s.frame.env.update(saved)
+        return exits, escapes
+
     def run_loop(self, itval: Val, st: State, body, node, joiner=None):
         """Iterate *itval*.  body(elem, state) -> [(ctl, state)].
         Returns (exits [(kind, state)], escapes [(ctl, state)])."""
+        if isinstance(itval, GenV):
+            return self._run_genv(itval, st, body, node)
         self.stats['loops'] += 1
         spec = self.iter_spec(itval, st, node)
         if isinstance(spec, Raise):
@@ -1037,7 +1098,16 @@ class Interp(ModelMixin):
     def ev_Name(self, e, st):
         env = st.frame.env
         if e.id in env:
-            return [(env[e.id], st)]
+            v = env[e.id]
+            if isinstance(v, GenV) and not getattr(self, '_want_gen', False):
+                # used as an ordinary value: run it now (eagerly) and remember the result, a generator is single-use anyway
+                outs = []
+                for lv, s in self.comprehension(self.genexps[v.key], st, 'gen'):
+                    if not isinstance(lv, Raise):
+                        s.frame.env[e.id] = lv
+                    outs.append((lv, s))
+                return outs
+            return [(v, st)]
         return [(self.global_name(e.id, st, e), st)]
 
     def global_name(self, name, st, node):
@@ -1453,10 +1523,10 @@ class Interp(ModelMixin):
             s.frame.env.update(saved)
         return res
 
-    def _next_gen(self, e, st):
+    def _next_gen(self, e, st, gen=None):
         """next(<generator expression>[, default]): the loop with early exit at the first element produced (the generator
         is lazy: elements after the first match are never evaluated)."""
-        gen = e.args[0]
+        gen = gen if gen is not None else e.args[0]
         g = gen.generators[0]
         res = []
         names = [n.id for n in ast.walk(g.target) if isinstance(n, ast.Name)]
@@ -1543,6 +1613,9 @@ class Interp(ModelMixin):
         if isinstance(e.func, ast.Name) and e.func.id == 'next' and 'next' not in st.frame.env and len(e.args) in (1, 2) \
                 and not e.keywords and isinstance(e.args[0], ast.GeneratorExp) and len(e.args[0].generators) == 1:
             return self._next_gen(e, st)
+        if isinstance(e.func, ast.Name) and e.func.id == 'next' and 'next' not in st.frame.env and len(e.args) in (1, 2) \
+                and not e.keywords and isinstance(e.args[0], ast.Name) and isinstance(st.frame.env.get(e.args[0].id), GenV):
+            return self._next_gen(e, st, gen=self.genexps[st.frame.env[e.args[0].id].key])
         # super()
         if isinstance(e.func, ast.Name) and e.func.id == 'super' and 'super' not in st.frame.env:
             return [(self.super_value(st, e), st)]
